@@ -430,6 +430,10 @@ impl FixedMethod {
                             self.buffer.pop();
                             self.buffer.push(B_OU);
                         }
+                        B_VOCALIC_RR => {
+                            self.buffer.pop();
+                            self.buffer.push(B_SANSKRIT_RR);
+                        }
                         _ => (),
                     }
                 } else if config.get_fixed_traditional_kar() && rmc.is_pure_consonant() {
